@@ -20,7 +20,18 @@ for kind in mutants benign; do
     prop=$(basename "$p" | cut -d- -f1)
     n=$((n+1))
     (cd "$W/repo" && git apply "/verif/$p") || { echo "SELFTEST-ERROR $p does not apply"; fail=1; continue; }
+    if [ "$prop" = ALL ]; then
+      # a benign patch spanning packages: every property whose packages it touches
+      dirs=$(grep '^+++ b/' "$p" | sed 's|^+++ b/||' | xargs -n1 dirname | sort -u | tr '\n' ' ')
+      props=$(python3 -c "
+import json,sys
+dirs=set(sys.argv[1].split()); p=json.load(open('/verif/props.json'))
+print(' '.join(k for k,v in p.items() if any(('./'+d) in v['packages'] for d in dirs)))" "$dirs")
+      rc=0; : > "$O/log"
+      for pr in $props; do GOVC_REPO="$W/repo" GOVC_OUT="$O" bin/govc check -prop "$pr" -tier quick >> "$O/log" 2>&1 || rc=1; done
+    else
     GOVC_REPO="$W/repo" GOVC_OUT="$O" bin/govc check -prop "$prop" -tier quick > "$O/log" 2>&1; rc=$?
+    fi
     hit=$(grep -c '^VIOLATION' "$O/log")
     if [ $kind = mutants ]; then
       if [ $rc -eq 1 ] && [ "$hit" -gt 0 ]; then echo "ok   caught  $p  ($(grep '^  obligation' "$O/log" | head -1 | cut -c1-110))"; else echo "MISS        $p (exit $rc)"; fail=1; tail -3 "$O/log"; fi
